@@ -83,6 +83,14 @@ type Config struct {
 
 	Budget int `json:"budget"` // max ticks; 0 = DefaultBudget
 
+	// Concurrency (only meaningful for a tree that starts goroutines or timers, see tasks.go):
+	// SchedSeed seeds the PRNG that decides every interleaving, SchedQuantum is the average
+	// number of steps a task runs before the schedule considers another; ReadDelayMs is the
+	// simulated time that passes before every read of standard input (the user thinks).
+	SchedSeed    int64 `json:"sched_seed,omitempty"`
+	SchedQuantum int   `json:"sched_quantum,omitempty"`
+	ReadDelayMs  int64 `json:"read_delay_ms,omitempty"`
+
 	RandSeed int64             `json:"rand_seed,omitempty"`
 	Pid      int               `json:"pid,omitempty"`
 	Env      map[string]string `json:"env,omitempty"`
@@ -147,7 +155,12 @@ type Result struct {
 	// OrdersUsed[i] = number of keys of the map seen by the i-th dynamic range.
 	OrdersUsed []int `json:"orders_used,omitempty"`
 	Reads      int   `json:"reads"`
+	Switches   int   `json:"switches,omitempty"` // task switches decided by the schedule
 }
+
+// Tainted is set (and never cleared) when a run left something behind that the simulator
+// cannot clean up; the harness treats it as its own failure.
+var Tainted string
 
 // ---------------------------------------------------------------- state
 
@@ -221,6 +234,8 @@ func Run(c Config, main func()) (res Result) {
 	}
 	// the process's time zone is part of the environment: set before package-level
 	// state is (re)initialised, as it would be at process start
+	resetTasks()
+	taskPanic = ""
 	oldLocal := time.Local
 	time.Local = time.FixedZone(fmt.Sprintf("SIM%+d", c.TZOffsetMin), c.TZOffsetMin*60)
 	defer func() { time.Local = oldLocal }()
@@ -255,9 +270,24 @@ func Run(c Config, main func()) (res Result) {
 		returned = true
 	}()
 	<-done
+	// the main task is gone: every other task of the program ends with it
+	endRunFrom(nil)
+	waited := make(chan struct{})
+	go func() { taskWG.Wait(); close(waited) }()
+	select {
+	case <-waited:
+	case <-time.After(30 * time.Second):
+		// a goroutine of the program is blocked where the simulator cannot see it (an
+		// unmodelled primitive): this process can no longer be trusted to isolate runs
+		Tainted = "a goroutine started by the program did not end with the run (blocked outside the simulator's control)"
+	}
 	running = false
 	mu.Lock()
 	defer mu.Unlock()
+	if res.Panic == "" && taskPanic != "" {
+		res.Panic = taskPanic
+	}
+	res.Switches = switches
 	res.Exit = exitCode
 	res.Returned = returned
 	res.Budget = budgetHit
@@ -315,6 +345,9 @@ func (*InStream) Stat() (fs.FileInfo, error) {
 }
 
 func (*InStream) Read(p []byte) (int, error) {
+	if cfg.ReadDelayMs > 0 {
+		sleepFor(cfg.ReadDelayMs)
+	}
 	reads++
 	if cfg.StdinErrAt >= 0 && delivered >= cfg.StdinErrAt && (!errFired || cfg.StdinErrSticky) {
 		errFired = true
@@ -373,6 +406,7 @@ func (*InStream) Read(p []byte) (int, error) {
 func Exit(code int) {
 	record("EXIT", "", int64(code))
 	exited, exitCode = true, code
+	endRunFrom(cur)
 	runtime.Goexit()
 }
 
@@ -501,6 +535,9 @@ func Now() time.Time {
 		clockIdx++
 	}
 	clockMs += step
+	if len(timers) > 0 {
+		fireDue()
+	}
 	return t
 }
 
@@ -508,7 +545,7 @@ func Since(t time.Time) time.Duration { return Now().Sub(t) }
 func Until(t time.Time) time.Duration { return t.Sub(Now()) }
 func Sleep(d time.Duration) {
 	record("SLEEP", "", int64(d/time.Millisecond))
-	clockMs += int64(d / time.Millisecond)
+	sleepFor(int64(d / time.Millisecond))
 }
 
 // ---------------------------------------------------------------- steps
@@ -518,7 +555,13 @@ func Tick() {
 	if !running {
 		return // package initialisers / resets run outside a simulated run
 	}
+	if dead {
+		return // the run is over; this is a deferred call of a task that is being ended
+	}
 	ticks++
+	if len(tasks) > 1 || len(timers) > 0 {
+		maybePreempt()
+	}
 	if gcIdx < len(cfg.GCTicks) && ticks >= cfg.GCTicks[gcIdx] {
 		gcIdx++
 		runtime.GC()
@@ -528,6 +571,7 @@ func Tick() {
 			budgetHit = true
 			record("BUDGET", "", int64(ticks))
 		}
+		endRunFrom(cur)
 		runtime.Goexit()
 	}
 }
